@@ -19,6 +19,15 @@ CHECKS = {
             "As C01."),
 }
 
+CHECKS.update({
+    "C08": ("model_checking", "shm", "TLC model checking of spec/Shm.tla (accounting invariants) + TLC -simulate behaviours replayed into the real shm Manager/Disk with state comparison after every step; invariants re-evaluated by TLC on every observed real state",
+            "free_space accounting and the capacity bound hold in every reachable state of the bounded model (all interleavings of requests with both halves of page-out callbacks, failing jobs, stale readers) and on every state observed while the real Manager follows TLC-generated behaviours.",
+            "Bounded: 3 keys (2,2,3; cap 4) and 2 keys deeper; fake segments and clock, real Disk code; CPython GIL atomicity of unlocked int updates; TLC."),
+    "C09": ("model_checking", "shm", "TLC model checking of spec/Shm.tla (BytesStable, FreshReaderProtected, LockSane, delayed purge, eviction liveness) + behaviour replay into the real Manager with real bytes",
+            "Byte stability, reader protection, delayed purge and eviction progress hold in the bounded model and on the real object for every replayed behaviour; bytes are real (segments and page files compared with what the writer wrote).",
+            "As C08."),
+})
+
 NOT_YET = {
 }
 
@@ -47,6 +56,8 @@ def main():
         "engines": [
             {"name": "cascade", "path": "harness/cascade_engine.py", "serves_properties": ["C01", "C02", "C03", "C04"],
              "kind_free_text": "TLC model checking of spec/Cascade.tla per instance + recorded executions of the real controller validated by TLC against spec/CascadeTrace.tla"},
+            {"name": "shm", "path": "harness/shm_engine.py", "serves_properties": ["C08", "C09"],
+             "kind_free_text": "TLC model checking of spec/Shm.tla + TLC-generated behaviours replayed into the real Manager"},
         ],
         "checks": checks,
         "not_applicable": na,
